@@ -1,4 +1,6 @@
 import Iauthd.Proto.Reload17
+import Iauthd.Proto.Deliver
+import Iauthd.Proto.Reload17b
 import Iauthd.Proto.Table
 /-
   Property C17 — "A reload reaches the decision modules" (model part).  The observable
@@ -8,19 +10,66 @@ import Iauthd.Proto.Table
 namespace Iauthd.Properties
 open Iauthd Iauthd.Proto
 
-/-- whenever the merged service section differs from the live one in any way — an entry
-    added, removed, or only its value edited — the service table is rebuilt from it;
-    likewise the rule vector.  (On the pinned tree only membership changes were delivered.) -/
+/-- how a configuration is delivered: at start-up each module scans its section once; on a reload
+    `iauth_xquery` rescans at every hook run of the merge (`rescanWalk`), `iauth_class` rebuilds its
+    rules when its section differs from the live one in any way.  (On the pinned tree only membership
+    changes were delivered.) -/
 theorem C17_delivery (s : State) (live new : Config) (first : Bool) :
     (applyConfig s live new first).1 =
       (let s0 := { s with timeout := new.timeout }
-       let s1 := if s0.hasXq && (first || mergeSection live.xq new.xq != live.xq)
-                 then servicesChanged s0 (mergeSection live.xq new.xq) else s0
+       let s1 := if s0.hasXq then
+                   (if first then servicesChanged s0 (mergeSection live.xq new.xq)
+                    else (rescanWalk [] live.xq (mergeSection live.xq new.xq) false).foldl servicesChanged s0)
+                 else s0
        if s1.hasClass && (first || mergeSection live.cls new.cls != live.cls)
        then classChanged s1 (mergeSection live.cls new.cls) else s1)
     ∧ (applyConfig s live new first).2 =
         { timeout := new.timeout, xq := mergeSection live.xq new.xq, cls := mergeSection live.cls new.cls } :=
   ⟨rfl, rfl⟩
+
+/-- **C17, the reload reaches `iauth_xquery`**: whenever the module is shown anything during a
+    reload, the last rescan it makes sees the string entries of the new file's section - names as the
+    new file spells them, values as it gives them … -/
+theorem C17_last_rescan (live new : Config) (sec : List CNode)
+    (h : (rescanWalk [] live.xq (mergeSection live.xq new.xq) false).getLast? = some sec) :
+    svcView sec = svcView (mergeSection live.xq new.xq) := by
+  simpa using rescanWalk_last [] live.xq (mergeSection live.xq new.xq) false sec h
+
+/-- … and it is shown nothing only when those entries are the ones it has already scanned -/
+theorem C17_no_rescan (live new : Config) (h : rescanWalk [] live.xq (mergeSection live.xq new.xq) false = []) :
+    svcView live.xq = svcView (mergeSection live.xq new.xq) :=
+  rescanWalk_nil _ _ _ _ h
+
+/-- so the state after a reload is a rescan of the new file's section (from some earlier table), or
+    the state before it when that section says what the live one said -/
+theorem C17_reload_is_rescan (s : State) (live new : Config) :
+    (∃ s', deliverXq s live.xq (mergeSection live.xq new.xq) false = servicesChanged s' (mergeSection live.xq new.xq)) ∨
+    (deliverXq s live.xq (mergeSection live.xq new.xq) false = s ∧ svcView live.xq = svcView (mergeSection live.xq new.xq)) := by
+  unfold deliverXq
+  simp only [Bool.false_eq_true, if_false]
+  cases hl : (rescanWalk [] live.xq (mergeSection live.xq new.xq) false).getLast? with
+  | none =>
+    have hnil := List.getLast?_eq_none_iff.mp hl
+    exact Or.inr ⟨by rw [hnil]; rfl, C17_no_rescan live new hnil⟩
+  | some sec =>
+    refine Or.inl ?_
+    have hne : rescanWalk [] live.xq (mergeSection live.xq new.xq) false ≠ [] := by
+      intro h; rw [h] at hl; cases hl
+    have hd := List.dropLast_concat_getLast hne
+    have hlast : (rescanWalk [] live.xq (mergeSection live.xq new.xq) false).getLast hne = sec := by
+      rw [List.getLast?_eq_some_getLast hne] at hl; exact Option.some.inj hl
+    refine ⟨(rescanWalk [] live.xq (mergeSection live.xq new.xq) false).dropLast.foldl servicesChanged s, ?_⟩
+    rw [← servicesChanged_congr _ (C17_last_rescan live new sec hl)]
+    conv => lhs; rw [← hd]
+    rw [List.foldl_append, hlast]
+    rfl
+
+/-- **C17, live sections**: the configuration the daemon holds after a reload does not depend on
+    the files loaded before - it is the one a fresh start on the new file holds, names spelled as
+    the new file spells them.  (On the pinned tree an entry present in both files kept the
+    spelling of the older file: finding F33.) -/
+theorem C17_config_fresh (s s0 : State) (live new : Config) (first : Bool) :
+    (applyConfig s live new first).2 = (applyConfig s0 {} new true).2 := rfl
 
 /-- the rule vector after a rebuild is the compilation of the object children of the section,
     in section order, with hit counters inherited by name -/
@@ -42,9 +91,8 @@ theorem C17_inherit_same_rules (new old : List Rule) :
 
 /-- a new request uses the timeout of the configuration that is live when it is announced -/
 theorem C17_timeout (s : State) (live new : Config) (first : Bool) :
-    (applyConfig s live new first).1.timeout = new.timeout := by
-  simp only [applyConfig]
-  split <;> split <;> simp [servicesChanged, classChanged]
+    (applyConfig s live new first).1.timeout = new.timeout :=
+  applyConfig_timeout s live new first
 
 /-! ### the tables after a reload and after a fresh start -/
 
@@ -73,6 +121,66 @@ theorem C17_rules_fresh (s s0 : State) (sec : List CNode) :
   have e : ∀ (l : List Rule), l.map kernelR = l.map (fun r => { r with assigned := 0 }) := fun l => rfl
   rw [e, e, C17_inherit_same_rules, C17_inherit_same_rules]
 
+/-! ### any number of reloads -/
+
+/-- what a daemon nobody waits on keeps true of its service table: well formed, unreferenced, and
+    holding exactly the services the live section names, each with the protocol it names -/
+def Reflects (s : State) (live : List CNode) : Prop :=
+  TableOK s.svcs ∧ NoRefs s.svcs ∧ ∀ name t, Has s name t ↔ Wants live name t
+
+/-- a section the configuration set can hold: one string entry per name, no NUL in a name -/
+def GoodSec (sec : List CNode) : Prop := SecDistinct sec ∧ ∀ n ∈ sec, NoNul n.name
+
+/-- a fresh start reflects its file -/
+theorem C17_reflects_start (s0 : State) (h0 : s0.svcs = []) (sec : List CNode) (hg : GoodSec sec) :
+    Reflects (servicesChanged s0 sec) sec := by
+  have hok : TableOK s0.svcs := by rw [h0]; exact ⟨(fun x hx => by cases hx), (fun i j x y hx => by simp at hx)⟩
+  have hr : NoRefs s0.svcs := by rw [h0]; intro x hx; cases hx
+  obtain ⟨k1, k2⟩ := servicesChanged_keeps s0 sec hok hr hg.2
+  exact ⟨k1, k2, fun name t => servicesChanged_exact s0 sec hok hr hg.1 hg.2 name t⟩
+
+/-- **C17 across a reload**: a daemon that reflects the live section reflects the new one after the
+    reload, whichever hooks ran during the merge and however many intermediate rescans they caused -/
+theorem C17_reflects_reload (s : State) (live xq : List CNode) (h : Reflects s live) (hl : GoodSec live) (hx : GoodSec xq) :
+    Reflects (deliverXq s live xq false) xq := by
+  obtain ⟨k1, k2⟩ := deliverXq_keeps s live xq false h.1 h.2.1 hl.2 hx.2
+  exact ⟨k1, k2, fun name t => deliverXq_exact s live xq h.1 h.2.1 h.2.2 hl.2 hx.2 hx.1 name t⟩
+
+/-- a run of reloads, each from the section the previous one installed -/
+def reloadAll (s : State) (live : List CNode) : List (List CNode) → State × List CNode
+  | [] => (s, live)
+  | xq :: rest => reloadAll (deliverXq s live xq false) xq rest
+
+/-- **C17 across any history of reloads**: started on one file and reloaded with any number of
+    others, the daemon's service table is the one the last file names - the one a daemon freshly
+    started on that file has (`C17_reflects_start`) -/
+theorem C17_reloads : ∀ (secs : List (List CNode)) (s : State) (live : List CNode), Reflects s live → GoodSec live →
+    (∀ sec ∈ secs, GoodSec sec) → Reflects (reloadAll s live secs).1 (reloadAll s live secs).2
+  | [], _, _, h, _, _ => h
+  | xq :: rest, s, live, h, hl, hs => by
+    unfold reloadAll
+    exact C17_reloads rest _ xq (C17_reflects_reload s live xq h hl (hs xq (List.mem_cons_self ..))) (hs xq (List.mem_cons_self ..))
+      (fun sec hm => hs sec (List.mem_cons_of_mem _ hm))
+
+theorem C17_reloads_fresh (s0 s0' : State) (h0 : s0.svcs = []) (h0' : s0'.svcs = []) (first : List CNode) (secs : List (List CNode))
+    (hf : GoodSec first) (hs : ∀ sec ∈ secs, GoodSec sec) (name : Bytes) (t : SvcTy) :
+    Has (reloadAll (servicesChanged s0 first) first secs).1 name t ↔
+    Has (servicesChanged s0' (reloadAll (servicesChanged s0 first) first secs).2) name t := by
+  have hlast : GoodSec (reloadAll (servicesChanged s0 first) first secs).2 := by
+    have key : ∀ (secs : List (List CNode)) (s : State) (live : List CNode), GoodSec live → (∀ sec ∈ secs, GoodSec sec) →
+        GoodSec (reloadAll s live secs).2 := by
+      intro secs
+      induction secs with
+      | nil => intro s live hl _; exact hl
+      | cons x r ih =>
+        intro s live _ hs
+        unfold reloadAll
+        exact ih _ x (hs x (List.mem_cons_self ..)) (fun sec hm => hs sec (List.mem_cons_of_mem _ hm))
+    exact key secs _ first hf hs
+  have a := (C17_reloads secs _ first (C17_reflects_start s0 h0 first hf) hf hs).2.2 name t
+  have c := (C17_reflects_start s0' h0' _ hlast).2.2 name t
+  rw [a, c]
+
 /-- the hypotheses are met: the empty table of a fresh start, and a two-entry section -/
 example : TableOK [] ∧ NoRefs [] := ⟨⟨(fun x hx => by cases hx), (fun i j x y hx => by simp at hx)⟩, fun x hx => by cases hx⟩
 example : SecDistinct [{ name := b "a.srv", value := b "login" }, { name := b "b.srv", value := b "dronecheck" }] := by
@@ -86,5 +194,39 @@ example : SecDistinct [{ name := b "a.srv", value := b "login" }, { name := b "b
   · intro c hc; cases hc
 example : Wants [{ name := b "a.srv", value := b "login" }, { name := b "b.srv", value := b "dronecheck" }] (b "b.srv") .dronecheck :=
   ⟨{ name := b "b.srv", value := b "dronecheck" }, by simp, rfl, rfl, by decide⟩
+
+example : GoodSec [{ name := b "a.srv", value := b "login" }, { name := b "b.srv", value := b "dronecheck" }] := by
+  refine ⟨?_, ?_⟩
+  · unfold SecDistinct
+    simp only [List.pairwise_cons, List.mem_cons, List.not_mem_nil, List.Pairwise.nil]
+    refine ⟨?_, ?_, trivial⟩
+    · intro c hc _ _
+      rcases hc with rfl | h
+      · decide
+      · cases h
+    · intro c hc; cases hc
+  · intro n hn
+    simp only [List.mem_cons, List.not_mem_nil, or_false] at hn
+    rcases hn with rfl | rfl <;> (unfold NoNul; decide)
+
+/-- what the module is shown when `a.srv` changes protocol, `b.srv` goes and `c.srv` comes: the
+    section with `a.srv` already new and `b.srv` still there, then without `b.srv` (`c.srv` is
+    not spliced in yet), then (the membership changed) the new section -/
+example : rescanWalk []
+    [{ name := b "a.srv", value := b "login" }, { name := b "b.srv", value := b "login" }]
+    [{ name := b "a.srv", value := b "dronecheck" }, { name := b "c.srv", value := b "login" }] false =
+    [[{ name := b "a.srv", value := b "dronecheck" }, { name := b "b.srv", value := b "login" }],
+     [{ name := b "a.srv", value := b "dronecheck" }],
+     [{ name := b "a.srv", value := b "dronecheck" }, { name := b "c.srv", value := b "login" }]] := by
+  simp (config := { decide := true }) [rescanWalk, cnodeEqKey, cnodeLt]
+
+/-- an entry only respelled: no entry hook runs, the section's hook does -/
+example : rescanWalk [] [{ name := b "A.srv", value := b "login" }] [{ name := b "a.srv", value := b "login" }] false =
+    [[{ name := b "a.srv", value := b "login" }]] := by
+  simp (config := { decide := true }) [rescanWalk, cnodeEqKey, cnodeLt]
+
+/-- nothing changed: the module is shown nothing -/
+example : rescanWalk [] [{ name := b "a.srv", value := b "login" }] [{ name := b "a.srv", value := b "login" }] false = [] := by
+  simp (config := { decide := true }) [rescanWalk, cnodeEqKey, cnodeLt]
 
 end Iauthd.Properties
